@@ -122,6 +122,8 @@ PROPS['C02'] = dict(
 )
 
 _CM = {'c-matrix-path-chains': lambda run: __import__('bounded.c_sweeps', fromlist=['x']).sweep_c_matrices(run)}
+_CML = dict(_CM, **{'c-matrix-large-shapes': lambda run: __import__('bounded.c_sweeps', fromlist=['x']).sweep_c_matrices_large(run)})
+_CAFF = {'c-affinity-chains': lambda run: __import__('bounded.c_sweeps', fromlist=['x']).sweep_c_affinity(run)}
 _ALL_C_PROVED = (PROPS['C09']['contracts'][:10] + PROPS['C06']['contracts'][6:] + PROPS['C07']['contracts'] + PROPS['C02']['contracts'])
 
 PROPS['C08'] = dict(
@@ -129,7 +131,7 @@ PROPS['C08'] = dict(
     contracts=[c for c in _ALL_C_PROVED if '::' in c],
     lemmas=['LenFullClosed', 'LenRectClosed', 'RowsBefore', 'RowsBeyond', 'LenFullBeyond', 'LenRowsNonneg',
             'RowAllInf', 'RowLeadInf', 'FoldMinIsMin'],
-    bounded=_CM,
+    bounded=dict(_CML, **_CAFF),
     level='proof',
     level_text='For 27 exported C routines (Euclidean bounds, LB_Keogh, block/length helpers, the six serial and six OpenMP '
                'distance-matrix routines with their prepare step, the four DTW kernels) every array access, every signed idx_t '
@@ -149,7 +151,11 @@ PROPS['C04'] = dict(
     modules=['contracts.dtw_py', 'contracts.dtw_c'],
     contracts=['dtw.warping_paths'],
     lemmas=[],
-    bounded=_CM,
+    bounded=dict(_CML, **{'c-wrapper-native-sweep': lambda run: _native_sweep(
+        'wps_native.py',
+        'random small pairs x window/penalty/psi/max_step/inner distance/psi_neg: dtw.warping_paths_fast (full), '
+        'warping_paths_fast(compact=True) + dtw_cc.wps_expand_slice (whole range and a sub-range) against dtw.warping_paths',
+        250, 2500)(run)}),
     level='proof',
     level_text='Python: dtw.warping_paths is proved (unbounded) to return a (len1+1)x(len2+1) matrix whose every cell is '
                'result_fn of the accumulated-cost recurrence W (inf outside the band / beyond max_step) and a distance equal '
@@ -436,6 +442,27 @@ PROPS['C11'] = dict(
     assumptions=[PY_A1, 'A2', A3_NUMPY, A7],
     not_decided=['d = 1 equals the univariate result: bounded (C sweep calls both kernels)', 'multivariate cost matrix / path / '
                  'distance matrix: bounded or covered under C04-C06 only', 'pruning with the multivariate bound: C03'],
+)
+
+PROPS['C18'] = dict(
+    modules=['contracts.affinity_py'],
+    contracts=['dtw.warping_paths_affinity'],
+    lemmas=[],
+    bounded=dict(_CAFF, **{'affinity-native-sweep': lambda run: _native_sweep(
+        'affinity_native.py',
+        'random small pairs and self-comparisons x gamma/tau/delta/delta_factor x penalty (incl. None) x window x only_triu: Python '
+        'matrix against the recurrence recomputed cell by cell; warping_paths_affinity_fast full and compact+wps_expand_slice against '
+        'Python; use_c dispatch; LocalConcurrences.kbest_matches (Python and C compact, restart and continued calls): contiguous '
+        'monotone paths through positive cells, no cell used twice', 150, 1500)(run)}),
+    level='proof',
+    level_text='Python: dtw.warping_paths_affinity is proved (unbounded) to fill every cell of the (len1+1)x(len2+1) matrix '
+               'with the affinity recurrence A of specs/affinity.py (exp(-gamma*diff^2) plus best penalised predecessor, or '
+               'delta + delta_factor*predecessor below tau, clipped at 0; -inf outside the band and below the diagonal under '
+               'only_triu) for every window, penalty (incl. None), gamma, tau, delta, delta_factor, begin-psi.',
+    level_note='The C engine and the kbest_matches traceback are bounded only.',
+    trusted_base=[PY_A1, A3_NUMPY, A7],
+    assumptions=[PY_A1, A3_NUMPY, A7],
+    not_decided=['end-of-series psi selection of the returned value', 'C engine unbounded', 'kbest_matches histories'],
 )
 
 NOT_APPLICABLE = {p: 'not decided yet: machinery for this property is still being built (see DESIGN.md §9 order of work)' for p in ['C01', 'C02', 'C03', 'C04', 'C05', 'C06', 'C07', 'C08', 'C09', 'C10', 'C11', 'C12', 'C13', 'C14', 'C15', 'C16', 'C17', 'C18', 'C19', 'C20'] if p not in PROPS}
